@@ -40,6 +40,11 @@ CHECKS = {
          "Counting estimators: every ordered pair of sketches of length 1..5 over a 3-letter alphabet (1.86e6 pairs in all) for each of the 6 free functions and the 2 estimator methods and each element type, compared with count/len computed independently in the type's arithmetic, plus symmetry, value 1 on identical sketches, range, and every length pair la!=lb<=5 (must be Err or panic, never a value). MLE: every ordered pair of register vectors over two 4-letter alphabets, m<=3 (quick) / 4 (thorough), b in {1.001,1.2,2}, and every ordered pair of real sketches of a 15-set family (nested chain 1..1e5, disjoint, identical, 30 vs 20000, empty) for m in {64,256,(4096)}: the real get_mle must return Some(j), j finite in [0,1], without aborting.",
          "estimators only compare elements, so longer sketches / larger alphabets are assumed to behave alike; MLE domain limited to the explored register alphabets (cardinality ratios >= 1e-12) and set family",
          "DESIGN.md §4 C14"),
+ "C09": ("model_checking",
+         "explicit-state BFS (stateright) over the real densified sketchers to a closed state space; supervised termination cases",
+         "The complete internal state of the real OptDensMinHash / RevOptDensMinHash (hook H3) is explored to a fixed point for m<=7 (quick) / 9 (thorough) under sketch(witness item per bin), end_sketch, sketch_slice (4 chunks incl. the empty one) and reinit; each transition replays the shortest history on a fresh real instance. On every finishing edge: populated bins bit-identical, every other bin holds the (value,hash) pair of a populated bin, nb_empty=0, all positions hold hashes of streamed items, u32 view = murmur3(127) of the u64 view, equal u64 entries imply equal float/u32 entries, a second end_sketch is a no-op, sketch_slice = item-wise + end_sketch, reinit = initial state. Every non-empty occupancy pattern is additionally enumerated directly up to m=10 (13). Finishing an empty stream (fresh or after reinit; end_sketch and sketch_slice(&[])) runs in sub-processes with a 5 s horizon: not returning is the violation. A watchdog turns any in-process finishing call that exceeds 20 s into a violation.",
+         "hook H3 exposes the whole mutable state; densification reads only the occupancy pattern",
+         "DESIGN.md §4 C09"),
 }
 PENDING_REASON = "check not built yet in this revision (see DESIGN.md §4 for the planned model-checking approach)"
 
